@@ -101,8 +101,7 @@ theorem C09_status_meaning (c : Cfg) (f : Faults) (root : Node) (e : Nat) :
       ∃ cl ∈ mustRoot c f root, cl.ext = e ∧ (cl.opened = false ∨ (c.extract cl.ext cl.path).err = true)) ∧
     (statusSpec c f root e = .part ↔
       (∃ cl ∈ mustRoot c f root, cl.ext = e ∧ (cl.opened = false ∨ (c.extract cl.ext cl.path).err = true)) ∧
-      ∃ cl ∈ mustRoot c f root, cl.ext = e ∧ cl.opened = true ∧
-        ((c.extract cl.ext cl.path).pkgs ≠ [] ∨ (c.extract cl.ext cl.path).other = true)) := by
+      ∃ cl ∈ mustRoot c f root, cl.ext = e ∧ cl.opened = true ∧ (c.extract cl.ext cl.path).isEmpty = false) := by
   have herr : (errsOfCalls c (mustRoot c f root)).contains e = true ↔
       ∃ cl ∈ mustRoot c f root, cl.ext = e ∧ (cl.opened = false ∨ (c.extract cl.ext cl.path).err = true) := by
     simp only [List.contains_iff_mem, errsOfCalls, List.mem_flatMap]
@@ -119,8 +118,7 @@ theorem C09_status_meaning (c : Cfg) (f : Faults) (root : Node) (e : Nat) :
       have : (!cl.opened || (c.extract cl.ext cl.path).err) = true := by simpa using h
       simp [this]
   have hfound : (foundOfCalls c (mustRoot c f root)).contains e = true ↔
-      ∃ cl ∈ mustRoot c f root, cl.ext = e ∧ cl.opened = true ∧
-        ((c.extract cl.ext cl.path).pkgs ≠ [] ∨ (c.extract cl.ext cl.path).other = true) := by
+      ∃ cl ∈ mustRoot c f root, cl.ext = e ∧ cl.opened = true ∧ (c.extract cl.ext cl.path).isEmpty = false := by
     simp only [List.contains_iff_mem, foundOfCalls, List.mem_flatMap]
     constructor
     · rintro ⟨cl, hcl, h⟩
@@ -132,7 +130,7 @@ theorem C09_status_meaning (c : Cfg) (f : Faults) (root : Node) (e : Nat) :
       · simp at h
     · rintro ⟨cl, hcl, rfl, h1, h2⟩
       refine ⟨cl, hcl, ?_⟩
-      rcases h2 with h2 | h2 <;> simp [h1, h2]
+      simp [h1, h2]
   unfold statusSpec
   simp only []
   constructor
